@@ -145,9 +145,11 @@ pub fn run_range_rules_t3(rep: &mut Report, drv: &mut Driver) {
 pub fn run_mess_t3(rep: &mut Report, drv: &mut Driver, rng: &mut Rng, n: usize) {
     run_range_rules_t3(rep, drv);
     for i in 0..n {
-        let text = match i % 4 {
-            0 => mojibake(rng),
-            1 => {
+        let text = match i % 8 {
+            5 => long_runs_text(rng),
+            7 => adjacent_blocks_text(rng),
+            0 | 4 => mojibake(rng),
+            1 | 6 => {
                 let (_, t) = *rng.pick(TEXTS);
                 let k = rng.range(1, 1500);
                 stretch(rng, t, k).chars().take(k).collect()
